@@ -1,8 +1,16 @@
 package ircserver
 
-import "gopkg.in/sorcix/irc.v2"
+import (
+	"regexp"
+
+	"gopkg.in/sorcix/irc.v2"
+)
 
 // verifSentMessages returns, parallel to reply.Messages, the structured
 // irc.Message behind every robust.Message the step appended (ghost state
 // captured by the engine at (*IRCServer).send).
 func verifSentMessages(reply *Replyctx) []*irc.Message
+
+// verifRegexpEither returns the compiled first expression when sel holds, else
+// the second; both are constants, the choice is a symbolic bit.
+func verifRegexpEither(sel bool, first, second string) *regexp.Regexp
